@@ -88,6 +88,8 @@ class ReplayBuilds:
         self.wd = wd
         self.shims = {}
         for j in plan['jobs']:
+            if isinstance(j, tuple):
+                continue
             if j.shim and j.shim_types is not None:
                 self.shims.setdefault(j.kernel, []).append((j.shim, j.shim_types, getattr(j, 'shim_ret', 'auto')))
 
@@ -176,7 +178,7 @@ def decide_failure(prop, job, kern, res, wd):
                             'failed obligation of a class the machinery does not attribute to the code under proof')
         return 'undecided', path, 'unrecognised obligation class %s: %s' % (fo['cls'], fo.get('desc', '')[:120])
     tr = kern.tr
-    fi = tr.funcs[kern.find(job.target)]
+    fi = tr.funcs[kern.resolve(job)]
     args = cex_args(job, fi, fo.get('cex'), tr)
     expected = None
     obs = []
@@ -220,7 +222,7 @@ def do_check(prop, tier, keep=False, only=None, verbose=False):
     jobs = plan['jobs']
     if only:
         rx = re.compile(only)
-        jobs = [j for j in jobs if rx.search(j.name)]
+        jobs = [j for j in jobs if isinstance(j, tuple) or rx.search(j.name)]
     wd = os.path.join(HERE, '.work', '%s.%d' % (prop, os.getpid()))
     if os.path.exists(wd):
         shutil.rmtree(wd)
@@ -231,7 +233,7 @@ def do_check(prop, tier, keep=False, only=None, verbose=False):
     REPLAY = ReplayBuilds(plan, wd)
     try:
         # 1. kernels
-        used = sorted({j.kernel for j in jobs})
+        used = sorted({(j[1] if isinstance(j, tuple) else j.kernel) for j in jobs})
         with ThreadPoolExecutor(max_workers=8) as ex:
             futs = {n: ex.submit(kernels[n].build, wd, plan.get('div_helpers', False)) for n in used}
             for n, f in futs.items():
@@ -240,6 +242,29 @@ def do_check(prop, tier, keep=False, only=None, verbose=False):
                 except R.Infra as e:
                     print('INFRA: %s' % e)
                     return finish(prop, tier, seed, plan, [], {}, t0, 2, ['kernel build failed: %s' % str(e)[:300]], wd, keep)
+        # 1b. expand leaf families: one job per instantiation of the pattern present in the kernel
+        expanded = []
+        for j in jobs:
+            if isinstance(j, tuple) and j[0] == 'LEAVES':
+                _, kn, pat, cfn, label = j[:5]
+                kw = j[5] if len(j) > 5 else {}
+                kern = kernels[kn]
+                for n in kern.find_all(pat):
+                    fi = kern.tr.funcs[n]
+                    if not fi['defined']:
+                        continue
+                    m = re.search(pat, fi['demangled'])
+                    c = cfn(m, fi, kern.tr)
+                    if c is None:
+                        continue
+                    short = re.sub(r'[^A-Za-z0-9_]+', '_', '_'.join(str(v) for v in m.groupdict().values()))
+                    jn = '%s.%s.%s' % (prop, label, short)
+                    if only and not re.search(only, jn):
+                        continue
+                    expanded.append(R.Job(jn, kn, '^' + re.escape(fi['demangled']) + '$', c, prop=prop, **kw))
+            else:
+                expanded.append(j)
+        jobs = expanded
         # 2. known findings
         findings = [f for f in load_findings() if f['property'] == prop and f.get('status', 'open') == 'open']
         # 3. run
@@ -442,7 +467,7 @@ def do_replay(path):
     plan = spec.plan(tier)
     job = None
     for j in plan['jobs']:
-        if j.name == d['job']:
+        if not isinstance(j, tuple) and j.name == d['job']:
             job = j
     if job is None:
         print('job %s no longer in the plan' % d['job'])
@@ -530,7 +555,7 @@ def main():
         spec = importlib.import_module('specs.' + a.prop)
         plan = spec.plan(a.tier)
         for j in plan['jobs']:
-            print(j.name, j.kernel, j.solvers, j.timeout)
+            print(j if isinstance(j, tuple) else (j.name, j.kernel, j.solvers, j.timeout))
         sys.exit(0)
     ap.print_help()
     sys.exit(2)
